@@ -618,9 +618,16 @@ def patch(sim, shim):
                             plan.append((v, ck, "lock-instance"))
                         elif isinstance(cv, _REAL_RLOCK_TYPE):
                             plan.append((v, ck, "rlock-instance"))
+                        elif ck == "_global" and hasattr(cv, "clear"):
+                            plan.append((v, ck, "singleton-cache"))
         _PATCH_PLAN, _PATCH_NMODS = plan, nmods
     saved = []
     for obj, k, what in _PATCH_PLAN:
+        if what == "singleton-cache":
+            # process-global singleton caches (ImmediateScheduler, CurrentThreadScheduler, TimeoutScheduler): start every run
+            # from the same state, otherwise the first run of a process executes "create the singleton" lines the others do not
+            getattr(obj, k).clear()
+            continue
         saved.append((obj, k, getattr(obj, k)))
         if what == "module":
             setattr(obj, k, shim)
